@@ -123,6 +123,10 @@ def run(rep: Report, prog: Program, tier: str) -> None:
     rep.rule("C07-NACK", "generic NACK sets", min_instances=8)
     fb = prog.func("rtp.RtcpRtpfbPacket.__bytes__")
     lost_lists = [[], [5], [5, 6, 7], [5, 21], [5, 22], [65535, 0], [65534, 65535, 0, 1, 20], [0, 65535], [9, 3], [100, 116, 117, 300]]
+    if tier == "thorough":
+        for base in (0, 1, 15, 16, 17, 32767, 65519, 65520, 65534, 65535):
+            for offs in ((0,), (0, 1), (0, 16), (0, 17), (0, 1, 16, 17, 33), (0, 15, 16, 31, 32, 48)):
+                lost_lists.append([(base + o) % 65536 for o in offs])
     for lost in lost_lists:
         pkt = new(prog, hook, "rtp.RtcpRtpfbPacket", fmt=1, ssrc=11, media_ssrc=22, lost=list(lost))
         raw = safely(hook.run_method, fb, pkt, [], {})
@@ -154,7 +158,10 @@ def run(rep: Report, prog: Program, tier: str) -> None:
 
     # ---------------- C07-REMB
     rep.rule("C07-REMB", "REMB mantissa/exponent", min_instances=12)
-    for bitrate in (0, 1, 0x3FFFF, 0x40000, 0x40001, 1000000, 4160000000, (1 << 40) + 12345, (0x3FFFF << 20) + 1):
+    bitrates = [0, 1, 0x3FFFF, 0x40000, 0x40001, 1000000, 4160000000, (1 << 40) + 12345, (0x3FFFF << 20) + 1]
+    if tier == "thorough":
+        bitrates += sorted({(1 << e) + d for e in range(0, 46) for d in (-1, 0, 1) if (1 << e) + d >= 0} | {0x3FFFF << e for e in range(0, 40, 3)})
+    for bitrate in bitrates:
         for ssrcs in ([], [1], [1, 2, 0xFFFFFFFF]):
             raw = safely(call, "rtp.pack_remb_fci", bitrate, list(ssrcs))
             back = safely(call, "rtp.unpack_remb_fci", raw) if isinstance(raw, bytes) else raw
